@@ -244,7 +244,32 @@ type c20Catalogue struct {
 	// Semantic corruption families (IDs), each judged by the reference model;
 	// some of them are *valid* variants, placed there deliberately.
 	SemCA, SemCU, SemNA []string
+	// KindCA: the channel-kind family, feature vector x funding-output form, every
+	// message correctly signed by all four keys (c20KindFeatures x c20KindOutNames).
+	KindCA []string
 }
+
+// c20KindFeatures: the feature vectors of the channel-kind family. The taproot
+// (staging) bits 180/181 select the P2TR MuSig2 funding output; their unknown
+// neighbours 179 (odd) and 182 (even), another unknown odd bit and the empty
+// vector do not; 80/81 are the final taproot bits (form undecided in gossip v1).
+var c20KindFeatures = []struct {
+	name string
+	bits []lnwire.FeatureBit
+}{
+	{"0", nil},
+	{"181", []lnwire.FeatureBit{181}},
+	{"180", []lnwire.FeatureBit{180}},
+	{"180+181", []lnwire.FeatureBit{180, 181}},
+	{"33+181", []lnwire.FeatureBit{33, 181}},
+	{"33", []lnwire.FeatureBit{33}},
+	{"179", []lnwire.FeatureBit{179}},
+	{"182", []lnwire.FeatureBit{182}},
+	{"81", []lnwire.FeatureBit{81}},
+	{"80", []lnwire.FeatureBit{80}},
+}
+
+func c20KindID(feat, out string) string { return "kCA.f=" + feat + ".out=" + out }
 
 func (c *c20Catalogue) add(m *c20Msg) *c20Msg {
 	if _, dup := c.byID[m.ID]; dup {
@@ -392,6 +417,28 @@ func c20BuildCatalogue() *c20Catalogue {
 		s.post = func(a *lnwire.ChannelAnnouncement1) { a.ExtraOpaqueData = c20ExtraTLV }
 	}).build("xCA.extra:=tlv,unsigned"))
 	sem(&c.SemCA, ca(func(s *c20CASpec) { s.extra = c20ExtraTLV }).build("xCA.extra=tlv,signed"))
+
+	// ---- channel kinds ---------------------------------------------------------
+	// every feature vector x every funding-output form: bitcoin keys btc-1/btc-2, all
+	// four signatures valid; only the (features, output) pair decides
+	for _, f := range c20KindFeatures {
+		for _, o := range c20KindOutNames() {
+			f, o := f, o
+			sem(&c.KindCA, ca(func(s *c20CASpec) {
+				s.scid = c20KindScid(o)
+				s.features = lnwire.NewRawFeatureVector(f.bits...)
+			}).build(c20KindID(f.name, o)))
+		}
+	}
+	// honest updates of the taproot channel (scid of the tr2of2 output)
+	for dir := 0; dir < 2; dir++ {
+		for i, ts := range []uint32{T, T + 1} {
+			sp := c20HonestCU(dir, ts)
+			sp.scid = c20KindScid("tr2of2")
+			sp.base = 5000 + uint32(10*dir+i)
+			c.add(sp.build(fmt.Sprintf("kCU%d%c.tr2of2", dir, 'a'+i)))
+		}
+	}
 
 	// ---- channel_update ------------------------------------------------------
 	// base: the direction-0 update with timestamp t+1 (fresh after CU0a)
